@@ -1,17 +1,26 @@
 //! Property C01: default rules preserve program behaviour.
-//!  (1) per rule: correspondence of the Lean rule models with the real `Rule::process`
-//!      (output trees identical) — `rulecheck::check_program`;
+//!  (1) per rule: correspondence of the Lean rule models (`lean/DarkluaModel/Rules/*.lean`, the
+//!      definitions the theorems of `C01/Thm.lean` are about) with the real `Rule::process`
+//!      — output trees must be identical;
 //!  (2) oracle: original vs REAL output executed on the Lean reference semantics, for every
 //!      default rule alone, the default list, and random subsets in random order;
 //!  (3) end to end through `darklua_core::process` and the three generators: the generated
 //!      TEXT is parsed back and executed.
+//! Known defects (F5, F6, F24 …): the partial theorems carry a decidable hypothesis `H`
+//! (`c01.region <rule> <block>`); generated programs outside `H` are not judged by the oracle
+//! for that rule (the correspondence still runs on them — the models mirror the defects), the
+//! listed witnesses are replayed one by one from `known_findings.json`, and any behavioural
+//! difference inside `H` is a VIOLATION.
 use crate::exec;
-use crate::model::Model;
+use crate::model::{hex, Model};
 use crate::progen::{self, Features};
-use crate::report::{Report, Violation};
+use crate::progen_c01;
+use crate::report::{self, Report, Violation};
 use crate::rng::Rng;
-use crate::rulecheck::{self, CaseResult, RuleCase};
-use serde_json::json;
+use crate::rulecheck::{self, CaseResult};
+use darklua_core::nodes::Block;
+use darklua_core::rules::Rule;
+use serde_json::{json, Value};
 
 pub const DEFAULT_RULES: [&str; 13] = [
     "remove_spaces",
@@ -31,6 +40,222 @@ pub const DEFAULT_RULES: [&str; 13] = [
 
 fn modelled_rules(model: &mut Model) -> Vec<String> {
     model.ask("c01.rules").split(' ').map(|s| s.to_owned()).filter(|s| !s.is_empty() && !s.starts_with("unknown")).collect()
+}
+
+fn make_rules(names: &[&str]) -> Vec<Box<dyn Rule>> {
+    names.iter().map(|n| exec::rule_from_json(&format!("'{}'", n)).expect("rule")).collect()
+}
+
+/// `H` of the rule's (partial) theorem on this block, decided by the Lean driver: "in" or "out <why>"
+fn region(model: &mut Model, rule: &str, sexp: &str) -> String {
+    model.ask(&format!("c01.region {} {}", hex(rule.as_bytes()), sexp))
+}
+
+fn apply_caught(block: &mut Block, rules: &[Box<dyn Rule>], code: &str) -> Result<Result<(), String>, ()> {
+    std::panic::catch_unwind(std::panic::AssertUnwindSafe(|| exec::apply_rules(block, rules, code))).map_err(|_| ())
+}
+
+/// Does the REAL rule list break behaviour on this program, with every step inside `H`?
+/// Returns (original outcome, transformed outcome, transformed tree).
+fn oracle_fails_inside(model: &mut Model, names: &[&str], code: &str) -> Option<(String, String, String)> {
+    let block0 = exec::parse(code).ok()?;
+    let o0 = exec::run_block(model, rulecheck::LEVEL, &block0);
+    if !exec::outcome_ok(&o0) {
+        return None;
+    }
+    let mut block = block0.clone();
+    for name in names {
+        let sexp = crate::astsexp::block_to_sexp(&block);
+        if region(model, name, &sexp) != "in" {
+            return None;
+        }
+        let rules = make_rules(&[name]);
+        match apply_caught(&mut block, &rules, code) {
+            Ok(Ok(())) => {}
+            _ => return None,
+        }
+    }
+    let o1 = exec::run_block(model, rulecheck::LEVEL, &block);
+    if o0 != o1 {
+        Some((o0, o1, crate::astsexp::block_to_sexp(&block)))
+    } else {
+        None
+    }
+}
+
+/// model answer for one rule on one tree
+fn ask_rule(model: &mut Model, rule: &str, sexp: &str) -> String {
+    model.ask(&format!("c01.rule {} {}", hex(rule.as_bytes()), sexp))
+}
+
+/// does the Lean model of `rule` disagree with the real rule on this program text?
+fn model_differs(model: &mut Model, rule: &str, code: &str) -> bool {
+    let b0 = match exec::parse(code) { Ok(b) => b, Err(_) => return false };
+    let mut b1 = b0.clone();
+    let rules = make_rules(&[rule]);
+    match apply_caught(&mut b1, &rules, code) {
+        Ok(Ok(())) => {}
+        _ => return false,
+    }
+    let a = ask_rule(model, rule, &crate::astsexp::block_to_sexp(&b0));
+    a != "evallite-uncovered" && a != crate::astsexp::block_to_sexp(&b1)
+}
+
+pub struct Program<'a> {
+    pub code: &'a str,
+    /// which generator produced it (histogram bucket)
+    pub origin: &'a str,
+}
+
+/// One program through a set of single rules: oracle (inside `H`) + correspondence.
+pub fn check_rules(model: &mut Model, r: &mut Report, modelled: &[String], program: &Program, rule_names: &[&str]) {
+    let code = program.code;
+    let block0 = match exec::parse(code) {
+        Ok(b) => b,
+        Err(_) => {
+            r.hist("skipped", &format!("parse ({})", program.origin));
+            r.case(None::<u8>);
+            return;
+        }
+    };
+    let sexp0 = crate::astsexp::block_to_sexp(&block0);
+    let o0 = exec::run_block(model, rulecheck::LEVEL, &block0);
+    let original_ok = exec::outcome_ok(&o0);
+    r.hist("original_run", if original_ok { "error-free" } else if o0 == "timeout" { "timeout" } else { "error (correspondence only)" });
+    for rule in rule_names {
+        let rules = make_rules(&[rule]);
+        let mut block1 = block0.clone();
+        match apply_caught(&mut block1, &rules, code) {
+            Ok(Ok(())) => {}
+            Ok(Err(_)) => {
+                r.hist("skipped", "rule-error");
+                r.case(None::<u8>);
+                continue;
+            }
+            Err(()) => {
+                r.violation(Violation {
+                    kind: "oracle".into(),
+                    check: format!("{}:panic", rule),
+                    what: format!("rule {} panicked", rule),
+                    input: json!({"rules": [rule], "code": code}),
+                    failing_input_found: true,
+                });
+                continue;
+            }
+        }
+        let sexp1 = crate::astsexp::block_to_sexp(&block1);
+        let fired = sexp0 != sexp1;
+        // ---- oracle on the real output (an unchanged tree trivially behaves the same)
+        let mut oracle_failed = false;
+        if fired && original_ok {
+            let reg = region(model, rule, &sexp0);
+            if reg == "in" {
+                let o1 = exec::run_block(model, rulecheck::LEVEL, &block1);
+                r.count("oracle_compared", 1);
+                if o0 != o1 {
+                    oracle_failed = true;
+                    let names = [*rule];
+                    let mut fails = |text: &str| oracle_fails_inside(model, &names, text).is_some();
+                    let small = rulecheck::shrink_lines(code, &mut fails);
+                    let detail = oracle_fails_inside(model, &names, &small);
+                    r.violation(Violation {
+                        kind: "oracle".into(),
+                        check: format!("{}:behaviour", rule),
+                        what: format!("rule {} changes the behaviour of a program whose original run is error-free (inside the hypothesis of its theorem)", rule),
+                        input: json!({"rules": [rule], "code": small, "origin": program.origin,
+                            "original_outcome": detail.as_ref().map(|d| d.0.clone()),
+                            "transformed_outcome": detail.as_ref().map(|d| d.1.clone()),
+                            "transformed_tree": detail.as_ref().map(|d| d.2.clone())}),
+                        failing_input_found: true,
+                    });
+                }
+            } else {
+                r.hist("outside_H (oracle not applied)", &format!("{}: {}", rule, reg));
+            }
+        }
+        // ---- correspondence with the Lean rule model
+        if modelled.iter().any(|m| m == rule) {
+            let answer = ask_rule(model, rule, &sexp0);
+            if answer == "evallite-uncovered" {
+                r.hist("evallite_uncovered (correspondence not applied)", rule);
+            } else {
+                r.count("correspondence_compared", 1);
+                if fired {
+                    r.hist("correspondence_on_fired", rule);
+                }
+                if answer != sexp1 {
+                    let rule_name = rule.to_string();
+                    let mut differs = |text: &str| model_differs(model, &rule_name, text);
+                    let small = rulecheck::shrink_lines(code, &mut differs);
+                    // search around the disagreement for an input on which the property itself fails
+                    let mut failing: Option<String> = None;
+                    if !oracle_failed {
+                        let names = [*rule];
+                        let lines: Vec<&str> = small.lines().collect();
+                        let mut candidates: Vec<String> = vec![small.clone(), code.to_owned()];
+                        for i in 0..lines.len().min(40) {
+                            let c: Vec<&str> = lines.iter().enumerate().filter(|(j, _)| *j != i).map(|(_, l)| *l).collect();
+                            candidates.push(c.join("\n"));
+                        }
+                        for c in candidates {
+                            if oracle_fails_inside(model, &names, &c).is_some() {
+                                failing = Some(c);
+                                break;
+                            }
+                        }
+                    }
+                    if let Some(f) = &failing {
+                        let names = [*rule];
+                        let detail = oracle_fails_inside(model, &names, f);
+                        r.violation(Violation {
+                            kind: "oracle".into(),
+                            check: format!("{}:behaviour", rule),
+                            what: format!("rule {} changes behaviour (found while searching around a model/code disagreement)", rule),
+                            input: json!({"rules": [rule], "code": f,
+                                "original_outcome": detail.as_ref().map(|d| d.0.clone()),
+                                "transformed_outcome": detail.as_ref().map(|d| d.1.clone())}),
+                            failing_input_found: true,
+                        });
+                    }
+                    r.violation(Violation {
+                        kind: "correspondence".into(),
+                        check: format!("{}:model", rule),
+                        what: format!("Lean model of rule {} and the real rule produce different trees; the theorem about the model no longer speaks about this code", rule),
+                        input: json!({"rules": [rule], "code": small, "origin": program.origin, "model_answer_prefix": answer.chars().take(300).collect::<String>()}),
+                        failing_input_found: oracle_failed || failing.is_some(),
+                    });
+                }
+            }
+        }
+        if fired {
+            r.hist("rule_fired", rule);
+            r.hist(&format!("fired_by_origin:{}", program.origin), rule);
+            r.case(Some((rule, code)));
+            if r.samples.len() < r.max_samples && r.samples.iter().all(|s| s["rule"] != **rule) {
+                r.sample(json!({"rule": rule, "origin": program.origin, "code": code}));
+            }
+        } else {
+            r.case(None::<u8>);
+        }
+    }
+}
+
+/// Walk a rule list step by step with the real rules; `Some(rule: why)` when some step leaves `H`.
+fn pipeline_leaves_h(model: &mut Model, names: &[&str], code: &str) -> Option<String> {
+    let mut block = exec::parse(code).ok()?;
+    for name in names {
+        let sexp = crate::astsexp::block_to_sexp(&block);
+        let reg = region(model, name, &sexp);
+        if reg != "in" {
+            return Some(format!("{}: {}", name, reg));
+        }
+        let rules = make_rules(&[name]);
+        match apply_caught(&mut block, &rules, code) {
+            Ok(Ok(())) => {}
+            _ => return Some(format!("{}: rule failed", name)),
+        }
+    }
+    None
 }
 
 /// end to end: real pipeline on memory resources, output text re-parsed and executed
@@ -79,55 +304,143 @@ fn end_to_end(model: &mut Model, report: &mut Report, code: &str, rules: &[&str]
     if let Some((o0, o1)) = rulecheck::oracle_compare(model, &block0, &block1) {
         report.count("e2e_compared", 1);
         if o0 != o1 {
+            if let Some(why) = pipeline_leaves_h(model, rules, code) {
+                report.hist("outside_H (oracle not applied)", &format!("e2e: {}", why));
+                return;
+            }
             report.violation(Violation {
                 kind: "oracle".into(),
                 check: format!("e2e:{}", generator),
                 what: "processed file behaves differently from the original".into(),
-                input: json!({"config": config_text, "code": code, "output": output, "original_outcome": o0, "transformed_outcome": o1}),
+                input: json!({"config": config_text, "rules": rules, "code": code, "output": output, "original_outcome": o0, "transformed_outcome": o1}),
                 failing_input_found: true,
             });
         }
     }
 }
 
-pub fn run(report: &mut Report, _replay: Option<&str>) {
-    let programs_per_thread: usize = if report.is_thorough() { 600 } else { 60 };
-    let threads = 12;
-    report.rule = "type-directed random Lua 5.1 programs (closures, upvalues, shadowing, varargs, multiple returns, \
-        effectful metamethods, loops with break, method calls, dead code); each program through every default rule alone \
-        (real Rule::process; tree compared with the Lean model where one exists; original and output executed on the \
-        Lean reference semantics), the default list and a random subset in random order end-to-end through \
-        darklua_core::process with each generator. Non-trivial = the rule changed the tree; distinct by (rule, program text)."
+/// Replay the listed known findings of C01: `witness = {"rules": [...], "code": "..."}`.
+fn replay_known_findings(model: &mut Model, report: &mut Report) {
+    for entry in report::known_findings("C01") {
+        let id = entry["id"].as_str().unwrap_or("?").to_owned();
+        let code = match entry["witness"]["code"].as_str() { Some(c) => c.to_owned(), None => continue };
+        let names: Vec<String> = entry["witness"]["rules"].as_array().map(|a| a.iter().filter_map(|v| v.as_str().map(|s| s.to_owned())).collect()).unwrap_or_default();
+        let name_refs: Vec<&str> = names.iter().map(|s| s.as_str()).collect();
+        let rules = make_rules(&name_refs);
+        // the witness must be OUTSIDE the hypothesis of the partial theorem …
+        let outside = pipeline_leaves_h(model, &name_refs, &code);
+        // … and still fail on the real code
+        match rulecheck::oracle_fails(model, &rules, &code) {
+            Some((o0, o1, _)) => {
+                if outside.is_some() {
+                    report.known_finding(&id, &format!("{} — still reproduces: {} | original {} | transformed {}",
+                        entry["expected_wrong"].as_str().unwrap_or(""), code.replace('\n', " "), o0, o1));
+                } else {
+                    report.violation(Violation {
+                        kind: "oracle".into(),
+                        check: format!("known-finding:{}", id),
+                        what: "a listed witness fails INSIDE the hypothesis of the partial theorem: the hypothesis no longer excludes it".into(),
+                        input: json!({"rules": names, "code": code, "original_outcome": o0, "transformed_outcome": o1}),
+                        failing_input_found: true,
+                    });
+                }
+            }
+            None => {
+                report.notes.push(format!("known finding {} no longer reproduces", id));
+            }
+        }
+    }
+}
+
+fn replay_file(model: &mut Model, report: &mut Report, modelled: &[String], path: &str) {
+    let text = match std::fs::read_to_string(path) { Ok(t) => t, Err(_) => return };
+    let v: Value = match serde_json::from_str(&text) { Ok(v) => v, Err(_) => return };
+    let input = if v["input"].is_object() { v["input"].clone() } else { v.clone() };
+    let code = match input["code"].as_str() { Some(c) => c.to_owned(), None => return };
+    let names: Vec<String> = input["rules"].as_array().map(|a| a.iter().filter_map(|x| x.as_str().map(|s| s.to_owned())).collect()).unwrap_or_default();
+    let name_refs: Vec<&str> = names.iter().map(|s| s.as_str()).collect();
+    if name_refs.len() == 1 || input["config"].is_null() {
+        let refs: Vec<&str> = if name_refs.is_empty() { DEFAULT_RULES.to_vec() } else { name_refs.clone() };
+        check_rules(model, report, modelled, &Program { code: &code, origin: "replay" }, &refs);
+    }
+    if !input["config"].is_null() {
+        let refs: Vec<&str> = if name_refs.is_empty() { DEFAULT_RULES.to_vec() } else { name_refs };
+        for g in ["retain_lines", "dense", "readable"] {
+            end_to_end(model, report, &code, &refs, g);
+        }
+    }
+}
+
+pub fn run(report: &mut Report, replay: Option<&str>) {
+    let thorough = report.is_thorough();
+    let programs_per_thread: usize = if thorough { 2500 } else { 90 };
+    let threads = 14;
+    report.rule = "(a) type-directed random Lua 5.1 programs (closures, upvalues, shadowing, varargs, multiple returns, \
+        effectful metamethods, loops with break, method calls, dead code) and (b) targeted programs (progen_c01: every small \
+        expression shape in every context kind, constant conditions of every evaluator-decidable form in while/if, early returns in \
+        every block kind, method definitions, local declarations with nil/duplicate/unused names); each program through the relevant \
+        default rules alone (real Rule::process; tree compared with the Lean model; original and output executed on the Lean \
+        reference semantics when the program is inside the hypothesis H of the rule's theorem), plus the default list and a random \
+        subset in random order end-to-end through darklua_core::process with each generator. Non-trivial = the rule changed the tree; \
+        distinct by (rule, program text)."
         .to_owned();
     let seed = report.seed;
+    {
+        let mut model = Model::spawn();
+        let modelled = modelled_rules(&mut model);
+        report.notes.push(format!("modelled rules: {}", modelled.join(" ")));
+        replay_known_findings(&mut model, report);
+        if let Some(path) = replay {
+            replay_file(&mut model, report, &modelled, path);
+            return;
+        }
+        // corpus: minimised past disagreements
+        let corpus = concat!(env!("CARGO_MANIFEST_DIR"), "/../corpus/C01");
+        if let Ok(dir) = std::fs::read_dir(corpus) {
+            let mut paths: Vec<_> = dir.filter_map(|e| e.ok()).map(|e| e.path()).collect();
+            paths.sort();
+            for p in paths {
+                if p.extension().map(|e| e == "json").unwrap_or(false) {
+                    replay_file(&mut model, report, &modelled, &p.to_string_lossy());
+                    report.count("corpus_replayed", 1);
+                }
+            }
+        }
+    }
+    // the targeted programs are enumerated once and dealt round-robin to the threads
+    let targeted = progen_c01::targeted(seed, thorough);
+    report.count("targeted_programs", targeted.len() as u64);
+    for (what, exhaustive) in progen_c01::exhaustive_parts(thorough) {
+        report.exhaustive.insert(what.to_owned(), exhaustive);
+    }
+    let targeted = &targeted;
     report.parallel(threads, |tid, r| {
         let mut model = Model::spawn();
         let modelled = modelled_rules(&mut model);
         let mut rng = Rng::new(seed.wrapping_mul(1000).wrapping_add(tid as u64));
+        // ---- (b) targeted
+        for (i, t) in targeted.iter().enumerate() {
+            if i % threads != tid {
+                continue;
+            }
+            r.hist("targeted_family", t.family);
+            check_rules(&mut model, r, &modelled, &Program { code: &t.code, origin: t.family }, &t.rules);
+            if t.pipeline {
+                let generator = *rng.pick(&["retain_lines", "dense", "readable"]);
+                end_to_end(&mut model, r, &t.code, &DEFAULT_RULES, generator);
+            }
+        }
+        // ---- (a) random programs
         for _ in 0..programs_per_thread {
-            let (code, used) = progen::generate(&mut rng.fork(), Features::lua51(), 60);
+            // one program in four uses the Luau extensions (compound assignment, continue, if-expressions,
+            // interpolated strings, type annotations)
+            let luau = rng.chance(1, 4);
+            let (code, used) = progen::generate(&mut rng.fork(), if luau { Features::luau() } else { Features::lua51() }, 60);
+            r.hist("dialect", if luau { "luau" } else { "lua51" });
             for u in &used {
                 r.hist("constructs", u);
             }
-            for rule in DEFAULT_RULES.iter() {
-                let json_text = format!("'{}'", rule);
-                let case = RuleCase { prop: "c01", rule_name: rule, rule_json: &json_text, modelled: modelled.iter().any(|m| m == rule) };
-                let result = rulecheck::check_program(&mut model, r, &case, &code);
-                match &result {
-                    CaseResult::Fired => {
-                        r.hist("rule_fired", rule);
-                        r.case(Some((rule, &code)));
-                    }
-                    CaseResult::Trivial => r.case(None::<u8>),
-                    CaseResult::Skipped(why) => {
-                        r.hist("skipped", why);
-                        r.case(None::<u8>);
-                    }
-                }
-                if r.samples.is_empty() && result == CaseResult::Fired {
-                    r.sample(json!({"rule": rule, "code": code}));
-                }
-            }
+            check_rules(&mut model, r, &modelled, &Program { code: &code, origin: if luau { "random-luau" } else { "random" } }, &DEFAULT_RULES);
             // pipelines end to end
             let generator = *rng.pick(&["retain_lines", "dense", "readable"]);
             end_to_end(&mut model, r, &code, &DEFAULT_RULES, generator);
@@ -138,4 +451,5 @@ pub fn run(report: &mut Report, _replay: Option<&str>) {
             r.case(None::<u8>);
         }
     });
+    let _ = CaseResult::Trivial;
 }
